@@ -410,6 +410,29 @@ func asWorldGen(r *Run, rng *Rng, w *asWorld, steps int) {
 		}
 		return nil
 	}
+	if w.agg.omitPrev && rng.Chance(60) {
+		// directed prelude for the "record rebuilt from a header without previous exit root" path: a settled certificate,
+		// a second one submitted but not recorded (crash), rebuilt at restart, then in error and replaced
+		l2++
+		do(fmt.Sprintf("l2blk %d b:0:%d b:5:%d", l2, rng.U64()%1000000, rng.U64()%1000000))
+		do("epoch")
+		if c := openCert(); c != nil {
+			do(fmt.Sprintf("move %d S", c.id))
+		}
+		do("status")
+		l2++
+		do(fmt.Sprintf("l2blk %d b:3:%d c:0:%d:0", l2, rng.U64()%1000000, rng.U64()%1000000))
+		do("epoch!")
+		if w.node == nil {
+			do("restart")
+		}
+		if c := openCert(); c != nil {
+			do(fmt.Sprintf("move %d E", c.id))
+		}
+		do("status")
+		do("epoch")
+		r.Count("branch:prelude-header-without-prev")
+	}
 	for i := 0; i < steps; i++ {
 		x := rng.Intn(100)
 		switch {
